@@ -332,6 +332,100 @@ def teardown_check(ctx, res):
 
 
 # ------------------------------------------------------------------------------------------------
+# a BUSY neighbour: one session repeats something many times - refused, failing or plain - in its own directory;
+# whatever a server may keep count of across sessions, another session must find it as if it were alone
+# ------------------------------------------------------------------------------------------------
+BUSY = [
+    ("stor-onto-a-directory", ["USER bob", "EPSV"], ["@data", "STOR /pa/sub"]),
+    ("restart-upload-of-a-missing-file", ["USER bob", "EPSV"], ["@data", "REST 5", "STOR /pa/missing.bin"]),
+    ("retr-of-a-missing-file", ["USER bob", "EPSV"], ["RETR /pa/missing.bin"]),
+    ("retr", ["USER bob", "EPSV"], ["@data", "RETR /pa/sub/x.txt"]),
+    ("list-of-a-missing-directory", ["USER bob", "EPSV"], ["@data", "LIST /pa/nothing"]),
+    ("mlsd", ["USER bob", "EPSV"], ["@data", "MLSD /pa"]),
+    ("mkd-of-an-existing-directory", ["USER bob"], ["MKD /pa/sub"]),
+    ("cwd-to-a-missing-directory", ["USER bob"], ["CWD /pa/nothing"]),
+    ("passive-listener-churn", ["USER bob"], ["EPSV", "PASV"]),
+    ("relogin-churn", [], ["USER alice", "PASS wrong", "USER bob"]),
+    ("abor-with-nothing-to-abort", ["USER bob"], ["ABOR"]),
+    ("unknown-verbs", ["USER bob"], ["FROB x"]),
+    ("transfer-without-data-connection", ["USER bob", "EPSV"], ["RETR /pa/sub/x.txt"]),
+]
+BUSY_FOLLOW = ["USER bob", "EPSV", "@data", "STOR /pb/new.bin", "@data", "RETR /pb/f.bin", "@data", "LIST /pb", "REST 3", "@data", "RETR /pb/sub/x.txt", "MKD /pb/made", "QUIT"]
+
+
+async def _busy_case(loop, prep, repeat, times, stays, with_first):
+    wd = W.World(loop, USERS)
+    await wd.start()
+    out = {}
+    try:
+        wd.set_tree(TREE)
+        a = None
+        if with_first:
+            a = await wd.raw_client()
+            for k in range(-1, times):
+                for line in (prep if k < 0 else repeat):
+                    if a.eof:
+                        break
+                    if line == "@data":
+                        await W.data_connect(wd, a)
+                    else:
+                        await W.run_line(wd, a, line.encode(), payload=b"payload of a")
+            if not stays:
+                await W.run_line(wd, a, b"QUIT")
+                await loop.settle()
+        b = await wd.raw_client()
+        recs = []
+        for line in BUSY_FOLLOW:
+            if line == "@data":
+                await W.data_connect(wd, b)
+                continue
+            codes, _, data, listing = await asyncio.wait_for(W.run_line(wd, b, line.encode(), payload=b"payload of b"), 600)
+            recs.append((line, codes, data.hex() if data else "", sorted(listing) if listing else None))
+        out = {"recs": recs, "pb": subtree(wd.tree(), "pb")}
+        if a is not None and stays:
+            a.close()
+        await loop.settle()
+    finally:
+        try:
+            await wd.stop()
+        except Exception:
+            wd.finish()
+    return out
+
+
+def _busy_job(args):
+    try:
+        return simnet.run(_busy_case, *args)
+    except BaseException as e:  # noqa
+        return "HARNESS-ERROR %s: %s" % (type(e).__name__, e)
+
+
+def busy_check(ctx, res):
+    solo = _busy_job(([], [], 0, False, False))
+    times = 70 if not ctx.thorough() else 300
+    jobs = [(prep, rep, times, stays, True) for _, prep, rep in BUSY for stays in (True, False)]
+    mp = multiprocessing.get_context("fork")
+    with mp.Pool(min(16, os.cpu_count() or 4)) as pool:
+        outs = pool.map(_busy_job, jobs, chunksize=1)
+    for (name, prep, rep), k in zip([b for b in BUSY for _ in (0, 1)], range(len(jobs))):
+        o, stays = outs[k], jobs[k][3]
+        res.cases += 1
+        res.count("kind=busy-neighbour")
+        if isinstance(o, str) or isinstance(solo, str):
+            res.disagreements.append({"correspondence": "busy-neighbour harness", "input": [name, stays], "impl": o if isinstance(o, str) else solo})
+            continue
+        res.distinct.add(("busy", name, stays))
+        if o != solo:
+            d = next(((x, y) for x, y in zip(o["recs"], solo["recs"]) if x != y), None)
+            res.oracle_failures.append({
+                "input": {"kind": "busy-neighbour", "name": name, "prepare": prep, "repeat": rep, "times": times, "first_session_stays": stays},
+                "what": "next to a session that had done %r %d times, another session got %s; alone it gets %s" % (
+                    rep, times, (list(d[0])[:2] if d else "a different tree"), (list(d[1])[:2] if d else "")),
+                "signature": "C17:busy-neighbour-changes-another-session",
+            })
+
+
+# ------------------------------------------------------------------------------------------------
 # the shared passive-port pool: what another session did with it must not change what the next one gets
 # ------------------------------------------------------------------------------------------------
 POOL_FIRSTS = [
@@ -650,6 +744,7 @@ def _check(ctx):
     lockstep_check(ctx, res)
     teardown_check(ctx, res)
     pool_check(ctx, res)
+    busy_check(ctx, res)
     identity_check(ctx, res)
     res.samples = [{"sessions": SPECS[0], "start_skews": [0, 17], "backend_latency": 0.0}, {"sessions": SPECS[4], "start_skews": [0, 8, 11], "backend_latency": 0.003}]
     return res
@@ -681,6 +776,12 @@ def replay(ctx, doc):
         solo = _teardown_job(([], None, False))
         print("after the first session:", o)
         print("alone                  :", solo)
+        return o != solo
+    if inp.get("kind") == "busy-neighbour":
+        o = _busy_job((inp["prepare"], inp["repeat"], inp["times"], inp["first_session_stays"], True))
+        solo = _busy_job(([], [], 0, False, False))
+        print("next to the busy session:", o if isinstance(o, str) else [r[:2] for r in o["recs"]])
+        print("alone                   :", solo if isinstance(solo, str) else [r[:2] for r in solo["recs"]])
         return o != solo
     if inp.get("kind") == "identity":
         o = _identity_job(inp["server_options"])
